@@ -68,6 +68,29 @@ fn format_range(fmt: &str) -> Option<(f64, f64)> {
     })
 }
 
+/// Well-known string formats are constraints a reader of the document would honour.
+fn string_format_ok(fmt: &str, s: &str) -> bool {
+    match fmt {
+        "uuid" => {
+            let b = s.as_bytes();
+            b.len() == 36 && b.iter().enumerate().all(|(i, c)| if [8, 13, 18, 23].contains(&i) { *c == b'-' } else { c.is_ascii_hexdigit() })
+        }
+        "ip" => s.parse::<std::net::IpAddr>().is_ok(),
+        "ipv4" => s.parse::<std::net::Ipv4Addr>().is_ok(),
+        "ipv6" => s.parse::<std::net::Ipv6Addr>().is_ok(),
+        "date-time" => {
+            let b = s.as_bytes();
+            b.len() >= 20 && b[4] == b'-' && b[7] == b'-' && (b[10] == b'T' || b[10] == b't') && b[13] == b':' && b[16] == b':'
+                && b[..4].iter().all(|c| c.is_ascii_digit()) && (s.ends_with('Z') || s.ends_with('z') || s[19..].contains('+') || s[19..].contains('-'))
+        }
+        "date" => {
+            let b = s.as_bytes();
+            b.len() == 10 && b[4] == b'-' && b[7] == b'-' && b.iter().enumerate().all(|(i, c)| i == 4 || i == 7 || c.is_ascii_digit())
+        }
+        _ => true,
+    }
+}
+
 pub struct Validator {
     pub depth_limit: usize,
 }
@@ -169,6 +192,11 @@ impl Validator {
             }
             if let Some(m) = o.get("maxLength").and_then(|m| m.as_u64()) {
                 if n > m {
+                    return false;
+                }
+            }
+            if let Some(Value::String(f)) = o.get("format") {
+                if !string_format_ok(f, s) {
                     return false;
                 }
             }
